@@ -151,6 +151,9 @@ func runWorldKeep(t *testing.T, p *Plan, keep *[]*Proxy, body func(w *World)) *W
 		for name, sc := range p.Cfg.DNSScript {
 			w.N.DNS.Script[name] = sc
 		}
+		if p.Cfg.Knobs["dnsPeriodMs"] > 0 {
+			w.N.DNS.Period = time.Duration(p.Cfg.Knobs["dnsPeriodMs"]) * time.Millisecond
+		}
 		for _, s := range p.Cfg.TCPSinks {
 			w.TCPSink(s)
 		}
